@@ -27,14 +27,21 @@ CHECKS.update({
  "C01": _ev("theorems (all depths, fan-in, repetition, merge flags, failing loads): value.go's lazy chain export equals the closed-form "
             "flat_merge; export(c1++c2) = mp(...) IFF a decidable compatibility condition; the evaluator's exported JSON equals the "
             "property's nested fold of merge patch for literal worlds outside the known class kf_oso; the full statement is refuted "
-            "(C01-assoc).  Correspondence: the chain/evaluator model vs EvalEnvironment on exhaustive small families and random import "
-            "graphs; spec = left fold of merge patch over the imports' OBSERVED values"),
+            "(C01-assoc).  value.merge / property / keys / export and evaluateImport(s) are tied to the source by extracted behaviour "
+            "tables (C01_src_*).  Correspondence: the chain/evaluator model vs EvalEnvironment on exhaustive small families (layers x "
+            "shapes x nestings, chains of links, aliasing imports) and random import graphs; spec = left fold of merge patch over the "
+            "imports' OBSERVED values; a failure is excused as C01-assoc only if the model predicts the same observation"),
  "C02": _ev("theorems: byte-level port of parseInterpolate / propertyAccessParser with $$ law, exact path round trip, totality; "
             "fromJSON(toJSON v) = v incl. arrays and objects; base64 round trip in the evaluator; string form = the value toJSON shows "
-            "for single-layer values, refuted for inherited keys (C02-tostring).  'A reference denotes the final value' and the "
-            "documented functions of built-ins are evaluated by claims on the implementation's result (oracle), key-order "
-            "independence is proved under C09.  Correspondence: evaluator model on random programs in two key orders; Model/Interp.v "
-            "vs ast.Interpolate on arbitrary strings and in the round-trip direction"),
+            "for single-layer values, refuted for inherited keys (C02-tostring); C02_reference_denotes_final_value, "
+            "C02_nested_reference_denotes, C02_interpolation_denotes: in a run without diagnostics and unknowns a reference (top-level, "
+            "nested, inside a string) denotes x_access of the exported final value; the PARSER is inside the model (Model/Parse.v = "
+            "ast.ParseExpr / ParseEnvironment): parse(render e) = e on the canonical class and the diagnostic-free image of the parser "
+            "is exactly that class (C02_parse_*), its name switch re-read from the source; evaluateExpr's dispatch, the access walkers "
+            "and the builtins are tied to the source by behaviour tables (C02_src_*).  The documented functions of the other built-ins "
+            "at evaluator level are checked by claims on the implementation's result (oracle); key-order independence is proved "
+            "under C09.  Correspondence: evaluator model on random programs in two key orders; Model/Interp.v vs ast.Interpolate; "
+            "the implementation's decoded YAML tree through the model's parser vs the implementation's AST"),
  "C03": _ev("theorem C03_noninterference_partial: for every program without fn::fromJSON (imports, providers, fault plans, check mode "
             "included) two runs that differ only in secret payloads and both end without diagnostics have low-equivalent results and "
             "byte-identical redacted JSON / string / env-var / temp-file renderings (relational invariant over the mutually recursive "
@@ -45,12 +52,18 @@ CHECKS.update({
             "once (memo discipline) and each successfully loaded environment is loaded at most once; calls are logged exactly once.  "
             "Correspondence: the implementation's collaborator call log compared event by event; the same clauses evaluated on it"),
  "C06": _ev("theorems: checking logs no Open and (without showSecrets) no Decrypt; a decrypt only follows a valid envelope; fn::open and "
-            "undisclosed ciphertexts evaluate to unknown with the declared schema while checking.  PARTIAL: the approximation clause "
-            "(known scalars agree, arrays keep length, objects keep keys) and schema soundness are evaluated by the oracle `approx` on "
-            "check / check+showSecrets / open runs of the same world, not proved (see DESIGN 10)"),
+            "undisclosed ciphertexts evaluate to unknown with the declared schema while checking; C06_check_approx_open_partial: for "
+            "every program without fn::toJSON the check result approximates the opened one (simulation between the modes; refuted with "
+            "toJSON: known finding C06-tojson-merged); schema clause: C06_schema_sound_refuted (eight witnesses, four recorded as known "
+            "findings C06-schema-*, one repaired) and C06_schema_sound_partial for environments without merged imports whose provider "
+            "schemas have no open records/arrays.  Correspondence: check / check+showSecrets / open runs of the same world: the "
+            "oracle `approx`, and the JSON-Schema specification vspec (the one C08's theorems are about) applied to check's "
+            "Environment.Schema and the opened value; the model's schemas are compared with the implementation's on every case"),
  "C07": _ev("theorems: results do not depend on fuel once it suffices, and an explicit bound always suffices (reference cycles, import "
             "cycles, self-imports, every fault plan; excluding the model's 'unsupported' marker for non-ASCII JSON text); every declared "
-            "key is present in the result; every failure path yields an unknown value and a diagnostic.  Go panics, stack exhaustion and "
+            "key is present in the result; every failure path yields an unknown value and a diagnostic; C07_run_terminates_cleanly "
+            "(size-based bound).  Oracle on the implementation: no crash/panic/hang, every declared key present, and no unknown value "
+            "in an OPENED environment that reported no error.  Go panics, stack exhaustion and "
             "hangs are runtime behaviour: covered by fault enumeration over every collaborator call position (compared with the model), "
             "cyclic/failing imports, shape errors, byte mutation and interpolation fuzz through Load/Check/Eval/Encrypt/Decrypt"),
  "C09": _ev("theorem C09_key_order_irrelevant: reordering keys at every nesting level of the root and of every loadable environment "
@@ -59,9 +72,13 @@ CHECKS.update({
             "programs with many errors, conflicting provider schemas and keys differing only in case"),
  "C10": _ev("theorems: the imports table is a memo (an evaluated import is never re-evaluated and contributes exactly the stored value to "
             "imports.<name> and to the merge), value_access into imports.<x> returns the stored chain whatever was merged, what is "
-            "stored does not depend on the base being merged onto; state-independence (X means the same from any admissible state, "
-            "root and fuel) PROVED FOR LITERAL WORLDS, stated for general expressions (see DESIGN 10).  Mutable aliasing is runtime: "
-            "${imports.X} seen from arbitrary importers after all merges is compared with X evaluated on its own"),
+            "stored does not depend on the base being merged onto; C10_state_independent / C10_imported_same_everywhere: for arbitrary "
+            "expressions, providers, secrets and import cycles, X evaluates to the same chain from any two states that agree on its "
+            "import closure, and every table entry for X is X opened on its own (fault-free worlds that do not read `context`; each "
+            "hypothesis shown necessary); evaluateImport(s), newEvalContext, CopyForEnv and the defensive copy of evaluatePropertyAccess "
+            "are tied to the source by behaviour tables (C10_src_*).  Mutable aliasing is runtime: ${imports.X} seen from arbitrary "
+            "importers after all merges is compared with X evaluated on its own, and a key only one merged import defines must arrive "
+            "unchanged (alias and multi-reference families, per-environment decrypters)"),
 })
 
 CHECKS["C17"] = {
